@@ -35,6 +35,15 @@ P = {
  "C12": ("Coq proof (loop accumulator invariant) + lock-step correspondence",
          "Theorem c12_known_kinds: check_prop 12 (closure invoked exactly once per element with the right index shape; loops return only after the end) for for_each/enumerate_for_each/fold loops of any chunk sizes mixed with direct pulls, known-size kinds, all schedules.",
          "The fold-combination clause (commutative monoid) is not stated in Coq yet; wrapped iterator by correspondence (partial)."),
+ "C04": ("Coq proof (tiling + gap-free-prefix invariant, induction over the schedule) + lock-step correspondence with call/return times",
+         "Theorem c04_known_kinds: check_prop 4 (at every point of the history where no call is pending the delivered positions are a gap-free prefix; each thread receives increasing positions; a pull that starts after another returned receives larger positions) on every trace of the known-size kinds, all schedules, skips included.",
+         "Known-size kinds proved; wrapped iterator by correspondence + extracted checker (partial). The sequential corollary (single-threaded history = sequential iterator) is the one-thread instance of the theorem together with C02/C03."),
+ "C08": ("Coq proof (ledger tiling invariant: taken and destroyed intervals tile [0, min(counter,len))) + drop-ledger correspondence",
+         "Theorems c08_known_kinds_run / c08_known_kinds_end_of_life: for consuming vectors and arrays, at every point of every schedule the moved-out and the machinery-destroyed intervals are pairwise disjoint and inside the source, and after drop or into_seq_iter (any number taken from the remainder) at any quiescent point they tile the source exactly: every element moved out or destroyed exactly once; for borrowed sources nothing is ever destroyed.",
+         "Known-size consuming kinds proved; owning wrapped iterator by correspondence + extracted checker (partial)."),
+ "C10": ("Coq proof (quiescent-state tiling) + correspondence on into_seq_iter results",
+         "Theorem c10_known_kinds: at every quiescent point of every schedule, into_seq_iter of a known-size kind yields exactly the elements from the delivered prefix on (all of them, in order, nothing duplicated or lost); after skip_to_end a suffix of the undelivered elements.",
+         "Known-size kinds proved; wrapped iterator by correspondence + extracted checker (partial)."),
  "C16": ("Coq proof (lia over the machine-word arithmetic layer) + boundary-matrix correspondence in both profiles",
          "Theorems c16_pull_arithmetic / c16_delivered_interval: for ALL b, n < 2^64, all lengths and all range bounds below 2^64, every pull of a known-size kind computes exactly [b, b+min(n,len-b)) (or the end), never panics, in both build modes. The boundary matrix of the property runs on the crate in the debug and the release harness and is compared with the model and judged by chk_C16/C02/C03.",
          "Run-level statement (chk_C16 on whole traces) is checked on implementation and model traces, not yet proved as a theorem; the wrapped iterator's reserved-counter wrap is known finding F14."),
@@ -44,11 +53,8 @@ P = {
 }
 
 NOT_YET = {
- "C04": "check exists (extracted checker on implementation traces, order clause proved inside the invariant) but the prefix clause is not yet a theorem in this snapshot; not claimed yet",
  "C07": "mutual exclusion / happens-before theorems for the wrapped iterator are in progress; not claimed in this snapshot",
- "C08": "ledger invariant proved inside the known-size invariant; end-of-life theorem and wrapped-iterator part in progress; not claimed in this snapshot",
  "C09": "progress theorems in progress; not claimed in this snapshot",
- "C10": "end-of-life theorem in progress; not claimed in this snapshot",
  "C13": "adaptor transparency theorem in progress; not claimed in this snapshot",
  "C14": "bounds translator and compile probes in progress; not claimed in this snapshot",
  "C15": "allocation ledger in progress; not claimed in this snapshot",
